@@ -441,4 +441,96 @@ theorem C09_profile_numbers_are_the_history (D : Dataset) (hc : D.Consistent) :
     congr 1
     exact map_eq_of_index _ _ _ _ hlen (fun j h1 h2 => (per j h1 h2).2)
 
+theorem internal_of_child (T : STree) (i : Nat) (u : Taxon) (ht : (i :: u) ∈ T.allTaxa) : T.isInternalAt u = true := by
+  have hl := c10_internal_not_leaf T i u ht
+  have hu := up_mem_allTaxa T i u ht
+  rw [mem_allTaxa_iff] at hu
+  unfold STree.isLeafAt at hl
+  unfold STree.isInternalAt
+  cases hs : T.sub u with
+  | none => rw [hs] at hu; simp at hu
+  | some x => rw [hs] at hl; simp only at hl; simp [hl]
+
+/-- **the whole profile entry of an ancestral node is a function of the histories**: number of genes = lineages crossing
+    the node, gained = families that start there, duplicated = copies placed on the branch, duplication events, retained and
+    lost by the two balance equations -/
+theorem C09_profile_from_histories (D : Dataset) (hc : D.Consistent) :
+    ∃ H, load D.T D.nm D.file = .ok H ∧ ∀ i u, (i :: u) ∈ H.tree.allTaxa → D.T.isInternalAt (i :: u) = true →
+      ∃ ret lost,
+        profileFullAt H (i :: u) =
+          { tx := i :: u, nbr := (D.fams.map fun f => lineagesAt (i :: u) f.1 f.2).sum,
+            dupl := some ((D.fams.map fun f => copiesInto (i :: u) f.1 f.2).sum),
+            lost := some lost,
+            gain := some ((D.fams.filter fun f => f.1 == i :: u).length),
+            retained := some ret,
+            duplication := some ((D.fams.map fun f => copiesInto (i :: u) f.1 f.2 - eventsInto (i :: u) f.1 f.2).sum),
+            nbrEvents := some ((D.fams.map fun f => copiesInto (i :: u) f.1 f.2 - eventsInto (i :: u) f.1 f.2).sum +
+              lost + (D.fams.filter fun f => f.1 == i :: u).length) } ∧
+        (D.fams.map fun f => lineagesAt (i :: u) f.1 f.2).sum =
+          ret + (D.fams.map fun f => copiesInto (i :: u) f.1 f.2).sum + (D.fams.filter fun f => f.1 == i :: u).length ∧
+        (D.fams.map fun f => lineagesAt (i :: u) f.1 f.2).sum + lost =
+          (D.fams.map fun f => lineagesAt u f.1 f.2).sum + (D.fams.filter fun f => f.1 == i :: u).length +
+            (D.fams.map fun f => copiesInto (i :: u) f.1 f.2 - eventsInto (i :: u) f.1 f.2).sum := by
+  obtain ⟨H, hload, hlen, hreal, hwc, hs, _⟩ := loaded_consistent D hc
+  obtain ⟨H1, hload1, hwf, _, _⟩ := loaded_consistent_wf D hc
+  obtain ⟨H2, hload2, hcount⟩ := C04_counts_are_lineages D hc
+  obtain ⟨H3, hload3, hnum⟩ := C09_profile_numbers_are_the_history D hc
+  have e1 : H1 = H := by rw [hload] at hload1; cases hload1; rfl
+  have e2 : H2 = H := by rw [hload] at hload2; cases hload2; rfl
+  have e3 : H3 = H := by rw [hload] at hload3; cases hload3; rfl
+  rw [e1] at hwf
+  rw [e2] at hcount
+  rw [e3] at hnum
+  have htree : H.tree = D.T := by
+    have := hload
+    simp only [load, buildHam, bind, Except.bind] at this
+    split at this
+    · cases this
+    · split at this
+      · cases this
+      · split at this
+        · cases this
+        · cases this; rfl
+  refine ⟨H, hload, ?_⟩
+  intro i u ht hint
+  have hu : u ∈ H.tree.allTaxa := up_mem_allTaxa _ i u ht
+  have hui : D.T.isInternalAt u = true := by rw [← htree]; exact internal_of_child _ i u ht
+  obtain ⟨nd, lost, gain, ret, dpl, hprof, hb1, hb2, _⟩ := C09_balance H hwc hs i u ht hu
+  obtain ⟨hd, hdn⟩ := hnum i u ht
+  obtain ⟨_, hg, _, _, _, _⟩ := C10_profiles_add_up H hwf hs i u ht
+  rw [hprof] at hd hdn hg
+  simp only [on, Option.getD_some] at hd hdn hg
+  -- no singleton lives at an internal node
+  have hsing : (singletonsAt H (i :: u)).length = 0 := by
+    have hwf' := hwf
+    simp only [Ham.wf, Bool.and_eq_true, List.all_eq_true] at hwf'
+    unfold singletonsAt
+    rw [List.length_eq_zero_iff, List.filter_eq_nil_iff]
+    intro g hg' hgt
+    simp only [Ham.singletons, List.mem_map, List.mem_filter] at hg'
+    obtain ⟨g0, ⟨hg0, _⟩, rfl⟩ := hg'
+    have hleaf := hwf'.2 g0 hg0
+    simp only [Node.tx, beq_iff_eq] at hgt
+    rw [hgt, htree] at hleaf
+    exact leaf_not_internal _ _ hleaf hint
+  -- families that start at the node
+  have hroots : (H.tops.filter fun p => p.2.tx == i :: u).length = (D.fams.filter fun f => f.1 == i :: u).length := by
+    rw [← List.countP_eq_length_filter, ← List.countP_eq_length_filter]
+    have hm : H.tops.map (fun p => p.2.tx == i :: u) = D.fams.map (fun f => f.1 == i :: u) :=
+      map_eq_of_index _ _ _ _ hlen (fun j h1 h2 => by rw [realises_tx _ _ _ (hreal j h1 h2).2])
+    have c1 : List.countP (fun p => p.2.tx == i :: u) H.tops = List.countP id (H.tops.map fun p => p.2.tx == i :: u) := by
+      rw [List.countP_map]; rfl
+    have c2 : List.countP (fun f => f.1 == i :: u) D.fams = List.countP id (D.fams.map fun f => f.1 == i :: u) := by
+      rw [List.countP_map]; rfl
+    rw [c1, c2, hm]
+  have hL := hcount (i :: u) hint
+  have hLu := hcount u hui
+  rw [hsing, hroots] at hg
+  simp only [Nat.add_zero] at hg
+  subst hd hdn hg
+  refine ⟨ret, lost, ?_, ?_, ?_⟩
+  · rw [hprof, hL]
+  · rw [← hL]; exact hb1
+  · rw [← hL, ← hLu]; exact hb2
+
 end Pyham
